@@ -112,7 +112,10 @@ class SymInputs:
             self.ctx.add_axiom(v >= lo)
         if hi is not None:
             self.ctx.add_axiom(v <= hi)
-        return SymInt(v)
+        mask = None
+        if lo is not None and hi is not None and lo >= 0 and hi < (1 << 24):
+            mask = (1 << builtins.max(1, builtins.int(hi).bit_length())) - 1
+        return SymInt(v, mask)
 
     def bool(self, name):
         return SymBool(self._decl(name, z3.Bool(name)))
@@ -135,7 +138,7 @@ class SymInputs:
             if kind == "str":
                 # str objects handed to urwid are valid text: no lone surrogates
                 self.ctx.add_axiom(z3.Or(v < 0xD800, v > 0xDFFF))
-            cps.append(SymInt(v))
+            cps.append(SymInt(v, 0xFF if (kind == "bytes" and lo >= 0 and hi <= 255) else None))
         return SymText(kind, cps)
 
     def choice(self, name, options):
